@@ -68,7 +68,7 @@ def run(rec, cfg):
     MR.attach_can()
     MR.attach_find()
     rng = cfg.rng("c06")
-    rules = MR.rule_instances()
+    rules = RC.with_flippers(MR.rule_instances())
     n = cfg.scale(20, 12000)
 
     def drive(root, depth_limit=3, rules=rules, big=False):
@@ -95,6 +95,7 @@ def run(rec, cfg):
             break
         big = src == "big-text"
         root = RC.parse_start(text, allow_big=big)
+        rules = RC.flip(rules, rng)
         use = RC.rules_for(src, rules)
         if root is not None and src == "long-text" and S.size(S.shadow(root)) > 0:
             continue   # the purity monitor rebuilds the tree for every question: quadratic, too slow here
